@@ -252,3 +252,64 @@ def r_index(repo, tier):
             if any(isinstance(x, (ast.If, ast.Continue, ast.Break)) for s in l.body for x in ast.walk(s)):
                 out.report(CORE, setup.dqual, "RECURSE: conditional", l.lineno, "some buckets are skipped by the loop that organises them")
     return out
+
+
+def r_treero(repo, tier):
+    """nothing outside disassembler.setup rewrites the spec tree"""
+    out = RuleOut(
+        "R-TREERO",
+        "the spec tree built by disassembler.setup (disassembler.specs: nested (mask, dict) nodes with lists of specs at the leaves) is "
+        "read-only after construction: outside arch/core.py no code calls an in-place list/dict method (sort, reverse, append, insert, "
+        "pop, remove, clear, update, ...) or stores an item on a value obtained from `.specs` or by unpacking one of its nodes -- the "
+        "order of a leaf list decides which spec wins",
+    )
+    MUT = {"sort", "reverse", "append", "insert", "pop", "remove", "clear", "update", "extend", "setdefault", "popitem"}
+    n = 0
+    for m in repo.modules.values():
+        if m.rel == CORE or not m.rel.startswith("amoco/"):
+            continue
+        if ".specs" not in m.src:
+            continue
+        for f in m.functions.values():
+            # names derived from a .specs tree: flow-insensitive closure over assignments / for targets / tuple unpacking / parameters
+            # of methods of a class that reads .specs (the walker receives nodes as arguments)
+            cls_reads = f.cls is not None and any(".specs" in norm(x) for g in f.cls.methods.values() for x in ast.walk(g.node) if isinstance(x, ast.Attribute))
+            if not cls_reads and ".specs" not in norm(f.node):
+                continue
+            tree = set()
+            if cls_reads:
+                tree |= {p for p in f.params() if p not in ("self", "cls")}
+            changed = True
+            while changed:
+                changed = False
+                for x in ast.walk(f.node):
+                    src, tg = None, []
+                    if isinstance(x, ast.Assign):
+                        src, tg = x.value, x.targets
+                        if not isinstance(src, (ast.Name, ast.Attribute, ast.Subscript, ast.Tuple)):
+                            continue  # a display / comprehension / call result is a new object, not a node of the tree
+                    elif isinstance(x, (ast.For, ast.comprehension)):
+                        src, tg = x.iter, [x.target]
+                    if src is None:
+                        continue
+                    if ".specs" in norm(src) or ({k.id for k in ast.walk(src) if isinstance(k, ast.Name)} & tree):
+                        for t in tg:
+                            for k in ast.walk(t):
+                                if isinstance(k, ast.Name) and k.id not in tree:
+                                    tree.add(k.id)
+                                    changed = True
+            if not tree:
+                continue
+            n += 1
+            out.inst(f.key, {"function": f.dqual, "tree_derived_names": sorted(tree)})
+            for x in ast.walk(f.node):
+                if isinstance(x, ast.Call) and isinstance(x.func, ast.Attribute) and x.func.attr in MUT and isinstance(x.func.value, ast.Name) and x.func.value.id in tree:
+                    out.report(m.rel, f.dqual, "in-place %s" % norm(x)[:60], x.lineno, "`%s` modifies in place a list/dict that is part of the disassembler's spec tree: the order of a leaf list decides which specification wins, so every later decode is affected" % norm(x)[:70])
+                if isinstance(x, (ast.Assign, ast.AugAssign, ast.Delete)):
+                    for t in (x.targets if isinstance(x, (ast.Assign, ast.Delete)) else [x.target]):
+                        if isinstance(t, ast.Subscript) and isinstance(t.value, ast.Name) and t.value.id in tree:
+                            out.report(m.rel, f.dqual, "item store %s" % norm(t)[:60], x.lineno, "`%s` stores into a node of the disassembler's spec tree" % norm(x)[:70])
+    out.stats["readers"] = n
+    if n < 1:
+        raise AnalysisError("R-TREERO: no reader of disassembler.specs found outside arch/core.py (ui/views.py archView expected)")
+    return out
